@@ -732,14 +732,14 @@ Proof. reflexivity. Qed.
 (* the declarator of an object (not a function): what _parse_cv_ptr returns
    and what is left for the caller *)
 Lemma declarator_rt b c v ls nm rest :
-  legalL KB ls = true -> Forall layer_ok ls -> kind_end KB ls <> KFn -> follow_ok rest = true ->
+  legalL KB ls = true -> Forall layer_ok ls -> kind_end KB ls <> KFn -> stops rest = true -> nolb rest = true ->
   exists arrs d,
     Forall SNk arrs /\ is_fn d = false /\ (arrs <> [] -> is_ref d = false) /\
     wrap d (map LArr arrs) = wrap (TBase b c v) ls /\
     ev (fun f => cvptr f (TBase b c v) (P ls (name_toks nm) ++ rest))
        (DOk (d, name_toks nm ++ sufs arrs ++ rest)).
 Proof.
-  intros Hleg Hok Hk Hf.
+  intros Hleg Hok Hk Hst Hnlb.
   destruct (trail_arrs ls KB Hleg Hk) as [arrs Ha].
   exists arrs, (wrap (TBase b c v) (mainl ls)).
   assert (Hsplit : ls = mainl ls ++ map LArr arrs) by (rewrite <- Ha; symmetry; apply main_trail).
@@ -759,11 +759,11 @@ Proof.
   - pose proof (cvptr_P (length ls) ls (le_n _) (TBase b c v) (name_toks nm) rest Hleg Hok Hcore) as H.
     rewrite Ha, P_only_arrs, <- app_assoc in H. apply H.
     + destruct nm as [n|]; [reflexivity|]. cbn [name_toks app].
-      destruct arrs as [|s r]; [cbn [sufs app]; now apply follow_stops|].
+      destruct arrs as [|s r]; [cbn [sufs app]; exact Hst|].
       rewrite sufs_rev. destruct (rev (s :: r)) as [|o os] eqn:Erev.
       { apply (f_equal (@length _)) in Erev. rewrite rev_length in Erev. discriminate. }
       reflexivity.
-    + now apply follow_nolb.
+    + exact Hnlb.
 Qed.
 
 Lemma arr_tail d arrs rest :
@@ -787,7 +787,7 @@ Lemma param_layers b c v ls nm rest :
      (DOk ((wrap (TBase b c v) ls, nm), rest)).
 Proof.
   intros Hleg Hok Hk Hf.
-  destruct (declarator_rt b c v ls nm rest Hleg Hok Hk Hf) as (arrs & d & Hsn & Hnf & Hnr & Hw & [f1 H1]).
+  destruct (declarator_rt b c v ls nm rest Hleg Hok Hk (follow_stops _ Hf) (follow_nolb _ Hf)) as (arrs & d & Hsn & Hnf & Hnr & Hw & [f1 H1]).
   assert (Hpb : parse_base (base_toks3 b c v ++ P ls (name_toks nm) ++ rest)
                 = DOk (TBase b c v, P ls (name_toks nm) ++ rest)).
   { apply parse_base_rt. apply nocv_P. now apply follow_nocv. }
@@ -827,7 +827,7 @@ Lemma var_tail_layers b c v ls n rest :
      (DOk (n, wrap (TBase b c v) ls, rest)).
 Proof.
   intros Hleg Hok Hk Hf.
-  destruct (declarator_rt b c v ls (Some n) rest Hleg Hok Hk Hf) as (arrs & d & Hsn & Hnf & Hnr & Hw & [f1 H1]).
+  destruct (declarator_rt b c v ls (Some n) rest Hleg Hok Hk (follow_stops _ Hf) (follow_nolb _ Hf)) as (arrs & d & Hsn & Hnf & Hnr & Hw & [f1 H1]).
   cbn [name_toks] in H1.
   destruct arrs as [|s r].
   - cbn [map wrap fold_left] in Hw. subst d. cbn [sufs app] in H1.
@@ -835,6 +835,30 @@ Proof.
     destruct rest as [|t r]; [reflexivity|].
     destruct (follow_inv t r Hf) as (_ & _ & _ & _ & _ & H6 & H7 & _). now rewrite H7, H6.
   - destruct (arr_tail d (s :: r) rest ltac:(discriminate) (Hnr ltac:(discriminate)) Hsn (follow_nolb _ Hf))
+      as (A & EA & [f2 H2]).
+    rewrite EA in H1. rewrite Hw in H2.
+    exists (Nat.max f1 f2). intros f Hge. unfold var_tail. rewrite H1 by lia. rewrite Hnf. cbn [app]. isc.
+    cbn [kval]. rewrite H2 by lia. reflexivity.
+Qed.
+
+Definition nolp (s : list tk) : bool := match s with t :: _ => negb (is LP t) | [] => true end.
+
+(* the same with the weaker condition on what follows: an initialiser ('=' or '{') may come next *)
+Lemma var_tail_layers_w b c v ls n rest :
+  legalL KB ls = true -> Forall layer_ok ls -> kind_end KB ls <> KFn ->
+  stops rest = true -> nolb rest = true -> nolp rest = true ->
+  ev (fun f => var_tail f (TBase b c v) (P ls [mkTk T_NAME n] ++ rest))
+     (DOk (n, wrap (TBase b c v) ls, rest)).
+Proof.
+  intros Hleg Hok Hk Hst Hnb Hnp.
+  destruct (declarator_rt b c v ls (Some n) rest Hleg Hok Hk Hst Hnb) as (arrs & d & Hsn & Hnf & Hnr & Hw & [f1 H1]).
+  cbn [name_toks] in H1.
+  destruct arrs as [|s r].
+  - cbn [map wrap fold_left] in Hw. subst d. cbn [sufs app] in H1.
+    exists f1. intros f Hge. unfold var_tail. rewrite H1 by lia. rewrite Hnf. isc. cbn [kval].
+    destruct rest as [|t r]; [reflexivity|].
+    cbn [nolb] in Hnb. cbn [nolp] in Hnp. apply negb_true_iff in Hnb. apply negb_true_iff in Hnp. now rewrite Hnb, Hnp.
+  - destruct (arr_tail d (s :: r) rest ltac:(discriminate) (Hnr ltac:(discriminate)) Hsn Hnb)
       as (A & EA & [f2 H2]).
     rewrite EA in H1. rewrite Hw in H2.
     exists (Nat.max f1 f2). intros f Hge. unfold var_tail. rewrite H1 by lia. rewrite Hnf. cbn [app]. isc.
@@ -1227,7 +1251,7 @@ Theorem alias_roundtrip t rest :
 Proof.
   intros Hwf Hk Hf. destruct (decl_view t None) as (b & c & v & Ed & Ew).
   destruct (declarator_rt b c v (layers t) None rest (legal_layers t Hwf) (layers_ok t Hwf)
-              ltac:(now rewrite kind_layers) Hf) as (arrs & d & Hsn & Hnf & Hnr & Hw & [f1 H1]).
+              ltac:(now rewrite kind_layers) (follow_stops _ Hf) (follow_nolb _ Hf)) as (arrs & d & Hsn & Hnf & Hnr & Hw & [f1 H1]).
   cbn [name_toks app] in H1. rewrite Ew in Hw.
   assert (Hpb : parse_base (base_toks3 b c v ++ P (layers t) (name_toks None) ++ rest)
                 = DOk (TBase b c v, P (layers t) (name_toks None) ++ rest)).
